@@ -130,8 +130,8 @@ ComposeItems(ev) ==
       L == FMax(O, FMax(LinCoeffMax(g, a), LinCoeffMax(g, b)))
       U == UnitT(g, L)
   IN << GroupItem(ev, "r", g, r, MMul(Ma, Mb), MMul(AbsR(g, Ma), AbsR(g, Mb)), FAdd(Dev(g, a), Dev(g, b))) >>
-     \o (IF Has(ev, "Ja") THEN << JItemB(ev, "Ja", DM(ev.Ja), AdjMat(g, MInv(Mb)), U, U, AdjAbs(g, MInv(Mb))),
-                                  JItem(ev, "Jb", DM(ev.Jb), MId(DoF(g)), U, U) >> ELSE <<>>)
+     \o (IF Has(ev, "Ja") THEN << JItemB(ev, "Ja", DM(ev.Ja), AdjMat(g, MInv(Mb)), U, U, AdjAbs(g, MInv(Mb))) >> ELSE <<>>)
+     \o (IF Has(ev, "Jb") THEN << JItem(ev, "Jb", DM(ev.Jb), MId(DoF(g)), U, U) >> ELSE <<>>)
 
 InverseItems(ev) ==
   LET g == ev.g  a == DV(ev.a)  r == DV(ev.r)
@@ -154,8 +154,8 @@ ActItems(ev) ==
       Jp == MFromCols([j \in 1..Dim(g) |->
               Project(g, MVec(Ma, VSub(Embed(g, [i \in 1..Dim(g) |-> IF i = j THEN O ELSE Z]), Embed(g, zero))))])
   IN << Item("rv", VRatio(v, model, tolv)) >>
-     \o (IF Has(ev, "Ja") THEN << JItem(ev, "Ja", DM(ev.Ja), Jm, rowU, UnitT(g, L)),
-                                  JItem(ev, "Jp", DM(ev.Jp), Jp, rowU, rowU) >> ELSE <<>>)
+     \o (IF Has(ev, "Ja") THEN << JItem(ev, "Ja", DM(ev.Ja), Jm, rowU, UnitT(g, L)) >> ELSE <<>>)
+     \o (IF Has(ev, "Jp") THEN << JItem(ev, "Jp", DM(ev.Jp), Jp, rowU, rowU) >> ELSE <<>>)
 
 IdentityItems(ev) ==
   LET g == ev.g  N == MatN(g)  zeroTol == [i \in 1..N |-> [j \in 1..N |-> FloorOf(ev)]]
@@ -225,13 +225,10 @@ RPlusItems(ev, left) ==
       U == UnitT(g, FMax(LinScale(g, t), LinCoeffMax(g, a)))
       Jr == JrOf(g, t)
   IN << GroupItem(ev, "r", g, r, P, S, Dev(g, a)) >>
-     \o (IF Has(ev, "Ja")
-         THEN IF left
-              THEN << JItem(ev, "Ja", DM(ev.Ja), MId(DoF(g)), U, U),
-                      JItemB(ev, "Jt", DM(ev.Jt), MMul(AdjMat(g, MInv(Ma)), Jr), U, U, MMul(AdjAbs(g, MInv(Ma)), MAbs(Jr))) >>
-              ELSE << JItemB(ev, "Ja", DM(ev.Ja), AdjMat(g, MInv(E)), U, U, AdjAbs(g, MInv(E))),
-                      JItem(ev, "Jt", DM(ev.Jt), Jr, U, U) >>
-         ELSE <<>>)
+     \o (IF Has(ev, "Ja") THEN (IF left THEN << JItem(ev, "Ja", DM(ev.Ja), MId(DoF(g)), U, U) >>
+                                         ELSE << JItemB(ev, "Ja", DM(ev.Ja), AdjMat(g, MInv(E)), U, U, AdjAbs(g, MInv(E))) >>) ELSE <<>>)
+     \o (IF Has(ev, "Jt") THEN (IF left THEN << JItemB(ev, "Jt", DM(ev.Jt), MMul(AdjMat(g, MInv(Ma)), Jr), U, U, MMul(AdjAbs(g, MInv(Ma)), MAbs(Jr))) >>
+                                         ELSE << JItem(ev, "Jt", DM(ev.Jt), Jr, U, U) >>) ELSE <<>>)
 
 \* rminus: tau = log(Y^-1 X);  lminus: tau = log(X Y^-1)      (a = X, b = Y)
 MinusItems(ev, left) ==
@@ -243,13 +240,10 @@ MinusItems(ev, left) ==
       Jri == MInv(JrOf(g, tau))
       JaL == MMul(Jri, AdjMat(g, Mb))
   IN IsLogItems(ev, g, X, S, tau, FAdd(Dev(g, a), Dev(g, b)))
-     \o (IF Has(ev, "Ja")
-         THEN IF left
-              THEN << JItemB(ev, "Ja", DM(ev.Ja), JaL, U, U, MMul(MAbs(Jri), AdjAbs(g, Mb))),
-                      JItemB(ev, "Jb", DM(ev.Jb), MNeg(JaL), U, U, MMul(MAbs(Jri), AdjAbs(g, Mb))) >>
-              ELSE << JItem(ev, "Ja", DM(ev.Ja), Jri, U, U),
-                      JItem(ev, "Jb", DM(ev.Jb), MNeg(MInv(JlOf(g, tau))), U, U) >>
-         ELSE <<>>)
+     \o (IF Has(ev, "Ja") THEN (IF left THEN << JItemB(ev, "Ja", DM(ev.Ja), JaL, U, U, MMul(MAbs(Jri), AdjAbs(g, Mb))) >>
+                                         ELSE << JItem(ev, "Ja", DM(ev.Ja), Jri, U, U) >>) ELSE <<>>)
+     \o (IF Has(ev, "Jb") THEN (IF left THEN << JItemB(ev, "Jb", DM(ev.Jb), MNeg(JaL), U, U, MMul(MAbs(Jri), AdjAbs(g, Mb))) >>
+                                         ELSE << JItem(ev, "Jb", DM(ev.Jb), MNeg(MInv(JlOf(g, tau))), U, U) >>) ELSE <<>>)
 
 BetweenItems(ev) ==
   LET g == ev.g  a == DV(ev.a)  b == DV(ev.b)  r == DV(ev.r)
@@ -258,8 +252,8 @@ BetweenItems(ev) ==
       U == UnitT(g, FMax(O, FMax(LinCoeffMax(g, a), LinCoeffMax(g, b))))
   IN << GroupItem(ev, "r", g, r, P, MMul(MMul(MMul(AbsR(g, Mai), AbsR(g, Ma)), AbsR(g, Mai)), AbsR(g, Mb)),
                   FAdd(Dev(g, a), Dev(g, b))) >>
-     \o (IF Has(ev, "Ja") THEN << JItemB(ev, "Ja", DM(ev.Ja), MNeg(AdjMat(g, MInv(P))), U, U, AdjAbs(g, MInv(P))),
-                                  JItem(ev, "Jb", DM(ev.Jb), MId(DoF(g)), U, U) >> ELSE <<>>)
+     \o (IF Has(ev, "Ja") THEN << JItemB(ev, "Ja", DM(ev.Ja), MNeg(AdjMat(g, MInv(P))), U, U, AdjAbs(g, MInv(P))) >> ELSE <<>>)
+     \o (IF Has(ev, "Jb") THEN << JItem(ev, "Jb", DM(ev.Jb), MId(DoF(g)), U, U) >> ELSE <<>>)
 
 TPlusItems(ev) ==
   LET g == ev.g  t == DV(ev.t)  s == DV(ev.s)  n == DoF(g)
@@ -342,7 +336,7 @@ BundleZeroItems(ev) ==
   IF ev.g.k # "Bundle" THEN << >>
   ELSE LET g == ev.g
            sq == \A f \in SquareJ \cap DOMAIN ev : (ev.e = "act" /\ f = "Ja") \/ OffBlockZero(g, ev[f], DoF, DoF)
-           actOK == (ev.e # "act" \/ ~Has(ev, "Ja")) \/ (OffBlockZero(g, ev.Ja, Dim, DoF) /\ OffBlockZero(g, ev.Jp, Dim, Dim))
+           actOK == ev.e # "act" \/ ((~Has(ev, "Ja") \/ OffBlockZero(g, ev.Ja, Dim, DoF)) /\ (~Has(ev, "Jp") \/ OffBlockZero(g, ev.Jp, Dim, Dim)))
        IN << Item("offblock_zero", IF sq /\ actOK THEN 0 ELSE 2000000000) >>
 
 \* ---- aliases (C04): each documented alias returns exactly what the canonical member returns
